@@ -183,6 +183,37 @@ def run(ctx, rep):
                "`self=obj` to an unbound method or to a function whose parameter is called self) fails locally with TypeError "
                "and never reaches the target" % bad, f.loc, kind="site")
 
+    # the process-wide cache of async wrappers is keyed by object identity: any peer-relative key (an id pack is unique
+    # within one peer only) lets a wrapper built for one connection answer for a proxy of another
+    fas = ctx.func("rpyc.utils.helpers.async_")
+    gas = ctx.cfg(fas)
+    rep.analysed(fas, gas)
+    rdas = Q.ReachingDefs(gas)
+    keys = []
+    for n in gas.live:
+        if n.ast is None or n.kind not in ("stmt", "test"):
+            continue
+        for x in A.walk(n.ast):
+            if isinstance(x, ast.Subscript) and A.dotted(x.value) == "_async_proxies_cache":
+                keys.append((n, x.slice))
+            elif isinstance(x, ast.Compare) and len(x.ops) == 1 and isinstance(x.ops[0], (ast.In, ast.NotIn)) and \
+                    A.dotted(x.comparators[0]) == "_async_proxies_cache":
+                keys.append((n, x.left))
+            elif isinstance(x, ast.Call) and isinstance(x.func, ast.Attribute) and A.dotted(x.func.value) == "_async_proxies_cache" \
+                    and x.args:
+                keys.append((n, x.args[0]))
+    rep.floor("R01.3", "uses of the async wrapper cache in async_()", len(keys), 2)
+
+    def is_identity(node, e):
+        e = K.resolve_expr(rdas, node, e)
+        return isinstance(e, ast.Call) and A.call_name(e) == "id" and len(e.args) == 1
+    badk = [(n, k) for n, k in keys if not is_identity(n, k)]
+    rep.ob("R01.3", "async_(): the wrapper cache is keyed by object identity", not badk,
+           "every key is id(<object>)" if not badk else
+           "the process-wide wrapper cache is keyed by `%s`: two connections whose remote callables share that key (forked peers, "
+           "two connections to one server) get each other's wrapper - the call runs on the wrong peer" % A.src(badk[0][1]),
+           ctx.loc(badk[0][1]) if badk else fas.loc, kind="site")
+
     # ------------------------------------------------------------------ R01.4
     K.share(ctx, rep, "c08", lambda o: o.rule == "R08.1" and ("carries the handler's result" in o.key or
                                                               "no-exception continuation" in o.key), "R01.4", floor=2)
